@@ -151,9 +151,15 @@ func c06Positions() []c06Pos {
 			return one(model.Var("t", model.Obj([]string{"a", "b", "c"}, []*model.N{P("A", n(1)), e, P("B", n(2))})))
 		}),
 		ep("index-expression", func(e *model.N) []*model.N { return one(model.Print(model.Idx(id("arr"), e))) }),
-		ep("store-index", func(e *model.N) []*model.N { return one(model.ExprS(model.IAsg(id("arr"), e, P("B", n(1)))), model.Print(id("arr"))) }),
-		ep("store-value", func(e *model.N) []*model.N { return one(model.ExprS(model.IAsg(id("arr"), n(0), e)), model.Print(id("arr"))) }),
-		ep("property-store-value", func(e *model.N) []*model.N { return one(model.ExprS(model.PAsg(id("o"), "k", e)), model.Print(id("o"))) }),
+		ep("store-index", func(e *model.N) []*model.N {
+			return one(model.ExprS(model.IAsg(id("arr"), e, P("B", n(1)))), model.Print(id("arr")))
+		}),
+		ep("store-value", func(e *model.N) []*model.N {
+			return one(model.ExprS(model.IAsg(id("arr"), n(0), e)), model.Print(id("arr")))
+		}),
+		ep("property-store-value", func(e *model.N) []*model.N {
+			return one(model.ExprS(model.PAsg(id("o"), "k", e)), model.Print(id("o")))
+		}),
 		ep("left-operand", func(e *model.N) []*model.N { return one(model.Print(model.Bin("+", e, P("B", n(1))))) }),
 		ep("right-operand", func(e *model.N) []*model.N { return one(model.Print(model.Bin("+", P("A", n(1)), e))) }),
 		ep("logical-left", func(e *model.N) []*model.N { return one(model.Print(model.Log(model.KwOr, e, P("B", n(1))))) }),
